@@ -120,6 +120,18 @@ CLAIMED["C15"] = dict(
     technique="intra-procedural order-taint (set-typedness inference + sink classification) with a frozen exemption table",
     design="3/C15")
 
+CLAIMED["C04"] = dict(
+    text="Decides the structure the layering rests on: order of the variable layers (variables.update sequence traced "
+         "to accessors, platform layers only for non-default platforms), order of the option layers and the left fold "
+         "with override_object(ret, layer), the 'higher layer wins unless None' branches of override_object, injection of "
+         "user variables as platform-stage variables for every platform/stage before the description is copied, "
+         "handlers that may swallow an unknown variable only under ignore_errors / primitive 'replica', and typed-option "
+         "table agreement (schema admits bool/int/float => a string-safe converter exists). Covers every combination "
+         "of layers; value equality with an independent resolver is not decided.",
+    technique="statement-order and CFG analysis of the resolver, handler swallow-path analysis, schema/converter "
+              "table agreement",
+    design="3/C04")
+
 NOT_APPLICABLE = {
     "C20": "arithmetic over floating-point stage weights (sums, int(w*1000) truncation, fallback split) for every "
            "stage count: no structural clause is a necessary condition; needs numeric exploration or a solver, i.e. "
